@@ -356,6 +356,7 @@ class Driver:
         w.faults.per_url.clear()     # outages end
         w.sim.stall_p = 0.0          # a stalled disk is a fault too
         w.sim.line_stall_p = 0.0     # ... and so is a thread descheduled for seconds
+        w.sim.queue_p = 0.0
         w.sim.stall_boost = None
         end = w.sim.now + limit
         # let background daemon events fire first
@@ -434,6 +435,7 @@ class Driver:
         w.faults.enabled = True
         w.sim.stall_p = w.k['stall_p']
         w.sim.line_stall_p = float(w.k.get('line_stall_p') or 0.0)
+        w.sim.queue_p = float(w.k.get('queue_p') or 0.0)
         w.sim.stall_boost = tuple(w.k['stall_boost']) if w.k.get('stall_boost') else None
 
     LIVENESS_PROP = 'C01'
